@@ -1791,23 +1791,13 @@ func (x *Exec) appendN(st *State, slT *types.Slice, s, n, srcBase, v *Term, at a
 			}
 			return And(cs...)
 		}
-		// index-form quantified version for reads under quantifiers
+		// quantified version for reads under quantifiers: stated per reference so
+		// that the instantiation pattern is a plain array read
+		zl := x.zeroLinks[nh.Op]
 		x.zeroLinksQ[nh.Op] = func() []*Term {
 			x.nfresh++
-			j := BoundVar(fmt.Sprintf("j!q%d", x.nfresh), SInt)
-			out := []*Term{
-				ForallPat([]*Term{j}, Implies(And(Not(fits), Le(IntLit(0), j), Lt(j, oldLen)),
-					Eq(Select(nhh, Add(resBase, j)), Select(oldh, Add(oldBase, j)))), Select(nhh, Add(resBase, j))),
-			}
-			if val != nil {
-				out = append(out, Eq(Select(nhh, Add(resBase, oldLen)), val))
-			} else if srcBase != nil {
-				x.nfresh++
-				i := BoundVar(fmt.Sprintf("j!q%d", x.nfresh), SInt)
-				out = append(out, ForallPat([]*Term{i}, Implies(And(Le(IntLit(0), i), Lt(i, n)),
-					Eq(Select(nhh, Add(resBase, Add(oldLen, i))), Select(oldh, Add(srcBase, i)))), Select(nhh, Add(resBase, Add(oldLen, i)))))
-			}
-			return out
+			r := BoundVar(fmt.Sprintf("r!q%d", x.nfresh), SInt)
+			return []*Term{ForallPat([]*Term{r}, zl(r), Select(nhh, r))}
 		}
 		x.setHeap(st, name, nh)
 	}
